@@ -14,8 +14,10 @@ MODULE = 'Props.C07'
 THEOREMS = ['Vakt.C07.filterM_superset', 'Vakt.C07.superset_ok', 'Vakt.C07.other_type_no_match',
             'Vakt.C07.exact_query_sound', 'Vakt.C07.fuzzy_query_sound', 'Vakt.C07.candidate_sound',
             'Vakt.C07.backend_decision_eq',
+            'Vakt.C07.regex_candidates_complete', 'Vakt.C07.regex_dropped_no_match', 'Vakt.C07.mongo42_regex_decision_eq',
+            'Vakt.C07.invalid_literal_breaks',
             'Vakt.C07.probes_ok']
-EXTRA_IMPORTS = ['Props.C06']
+EXTRA_IMPORTS = ['Props.C06', 'Props.C07Regex']
 FLOOR = {'quick': 50, 'thorough': 1500}
 ASSUMPTIONS = ['MySQL / PostgreSQL / Oracle regex and LIKE-escape semantics and a real MongoDB (PCRE) are not available: the '
                'regex-capable SQL dialect is SQLite with a registered REGEXP function (Python re.search) and Mongo is the '
@@ -112,6 +114,7 @@ def run(ctx):
     rng = ctx.rng
     n = ctx.budget(250, 8000)
     lines, meta = [], []
+    mlines, mmeta = [], []
     corpus = [{'k': 'KR', 'inquiry': {'resource': 'r', 'action': 'get', 'subject': 'max', 'context': {}},
                'policies': [
                    {'uid': 'a', 'desc': None, 'stag': '<', 'etag': '>', 'effect': 'allow', 'subjects': [('S', 'max')],
@@ -183,6 +186,16 @@ def run(ctx):
                             'Vakt.C07.candidate_sound / backend_decision_eq')
                 f.signature = sig + (':' + kind.split(':')[-1] if not sig.startswith('mongo42') else '')
                 out.failures.append(f)
+            # the MongoDB >= 4.2 aggregation of the regex checker against its model (MongoRegex.find over the stored
+            # compiled texts): the same candidates, or the same failure of the whole aggregation
+            if kind == 'mongo' and k == 'KR' and all(isinstance(getattr(inq, f), str) for f in ('action', 'subject', 'resource')):
+                try:
+                    mlines.append('MFIND %s %s %s %d %s' % (
+                        proto.enc_value(inq.action), proto.enc_value(inq.subject), proto.enc_value(inq.resource), len(objs),
+                        ' '.join(polcase.pol_line(p, o) for p, o in zip(case['policies'], objs))))
+                    mmeta.append((desc, None if cands is None else sorted(proto.enc_value(u) for u in cands), cerr))
+                except proto.ProtoError:
+                    pass
             # model candidates for the policies as they are read back (SQL / Mongo: default tags)
             if cands is not None and k is not None:
                 mb = model_backend(kind, k)
@@ -216,6 +229,27 @@ def run(ctx):
                         line=line)
             f.signature = 'model:' + base
             f.weak = True      # which non-matching policies a storage offers is not prescribed (C07: superset + same decision)
+            out.failures.append(f)
+    mres = ctx.driver.run(mlines) if ctx.driver else []
+    for line, (desc, cands, cerr), m in zip(mlines, mmeta, mres):
+        if m == 'bad-op':
+            raise Broken('driver rejected: %s' % line[:300])
+        out.count('mongo42-regex-query:' + m.split(' ')[0])
+        if m == 'unmodelled':
+            out.unmodelled += 1
+            continue
+        out.traces += 1
+        if m == 'fails':
+            ok = cerr == 'OperationFailure'
+        else:
+            toks = m.split(' ')[2:]
+            ok = cands is not None and sorted(toks) == cands
+        if not ok:
+            f = Failure('disagreement', desc, {'candidates': cands, 'error': cerr}, m,
+                        'the MongoDB >= 4.2 regex aggregation (fake server) differs from the model of the query over the '
+                        'stored compiled texts', 'Vakt.C07.mongo42_regex_decision_eq (MongoRegex.find)', line=line)
+            f.signature = 'model:mongo42-regex'
+            f.weak = True      # which non-matching policies the aggregation offers is not prescribed
             out.failures.append(f)
     out.rule = ('the same generated policy set (string- / rule-based / mixed stores, tag-enclosed and case-varied and '
                 'wildcard-bearing elements aimed at the inquiry) added to Memory and to %d other backends/wrappers; inquiry '
